@@ -470,7 +470,7 @@ func ruleR02_2(c *Ctx) {
 		if pathExists(f, z, n, nil, nil) {
 			ok := zerr != nil && guardedBy(n, z, factNil(vIs(zerr), true))
 			c.obI("R02.2", n, "authorize-error-stops", ok, "after Authorize the next handler is reached only through err == nil", "next.ServeHTTP reachable although Authorize returned an error")
-			okR, bad := allOrigins(args[1], oIsValue(zreq))
+			okR, bad := allOriginsAfter(f, z, args[1], oIsValue(zreq))
 			c.obI("R02.2", n, "authorized-request-forwarded", okR && zreq != nil, "the request forwarded after Authorize is the one Authorize returned (it carries principal and scopes)", "origin "+describeOrigin(bad))
 		} else {
 			okR, bad := allOrigins(args[1], oIsValue(f.Params[1]), oCall(1, "(*rt/middleware.Context).RouteInfo"))
